@@ -58,7 +58,10 @@ pub struct Plan {
     pub read_exact_chunk: usize,
 }
 
-const CODES: [u64; 10] = [0, 1, 63, 64, 16383, 16384, (1 << 30) - 1, 1 << 30, (1 << 62) - 2, (1 << 62) - 1];
+// varint-length boundaries, then values that mean something elsewhere in the protocol stack
+// (HTTP/3, QPACK and WebTransport error codes, the bounds of the WebTransport-to-HTTP/3 code
+// mapping): application codes are opaque, none of them is special
+const CODES: [u64; 31] = [0, 1, 63, 64, 16383, 16384, (1 << 30) - 1, 1 << 30, (1 << 62) - 2, (1 << 62) - 1, 0x33, 0x100, 0x103, 0x104, 0x105, 0x106, 0x107, 0x108, 0x109, 0x10a, 0x10b, 0x10c, 0x10e, 0x110, 0x200, 0x201, 0x202, 0x170d_7b68, 0x3994_bd84, 0x52e4_a40f_a8db, 0x52e5_ac98_3162];
 
 pub fn gen_plan(seed: u64, index: usize, faulty: bool) -> Plan {
     let mut rng = Rng::new(seed, "c06");
